@@ -295,11 +295,22 @@ class HashWalker(DagWalker):
         self.tagged = tagged
         for k in list(self.functions):
             self.functions[k] = self.cbk
+        self.fail_children = None       # `_get_children` raises on this formula
+        self.fail_key = None            # `_get_key` raises on this key
+        self.fault_hit = None
+
+    def _get_children(self, formula):
+        if self.fail_children is not None and formula is self.fail_children:
+            self.fault_hit = formula
+            raise Injected("children")
+        return formula.args()
 
     def _get_key(self, formula, **kwargs):
-        if self.tagged:
-            return (kwargs["tag"], formula)
-        return formula
+        key = (kwargs["tag"], formula) if self.tagged else formula
+        if self.fail_key is not None and key == self.fail_key:
+            self.fault_hit = key
+            raise Injected("key")
+        return key
 
     def cbk(self, formula, args, **kwargs):
         return hcb(self.index[self._get_key(formula, **kwargs)], args)
@@ -321,7 +332,7 @@ DIAMOND_KINDS = ["bool", "int", "real", "bv", "ite_bool", "ite_int", "ite_real",
                  "select2d", "str_let", "str_inline"]
 DIAMOND_KMAX = {"mixed": 40, "select2d": 12, "str_let": 30, "str_inline": 7}
 COMB_KINDS = ["and", "or_not", "plus", "times_minus", "bvadd", "bvmix", "ite_bv_then", "ite_int_else", "store",
-              "ite_bool", "ite_arr_then"]
+              "ite_bool", "ite_arr_then", "str_concat"]
 WIDE_KINDS = ["and", "plus", "or_atoms", "bvor_chain"]
 
 
@@ -495,6 +506,12 @@ def build_family(env, shape, kind, k):
             for i in range(k):
                 t = m.Ite(ps[i % 7], t, b)
             leaf, rep = a, b
+        elif kind == "str_concat":      # strings: outside the property's operator list (regression family, F46)
+            s0, s1 = m.Symbol("s0", types.STRING), m.Symbol("s1", types.STRING)
+            t = s0
+            for i in range(k):
+                t = m.StrConcat(t, s1)
+            leaf, rep = s0, s1
         else:  # store
             t = a
             for i in range(k):
@@ -1123,14 +1140,53 @@ def check_partitions(ctx, timings, quick):
                 pop_env()
 
 
+def harness_tree_size(f):
+    """number of nodes of the tree expansion, computed by the harness"""
+    memo = {}
+    stack = [f]
+    while stack:
+        n = stack[-1]
+        if n in memo:
+            stack.pop()
+            continue
+        pend = [c for c in n.args() if c not in memo]
+        if pend:
+            stack.extend(pend)
+        else:
+            memo[n] = 1 + sum(memo[c] for c in n.args())
+            stack.pop()
+    return memo[f]
+
+
+def tapped_tree_print(kind, f, env):
+    """HRPrinter / SmtPrinter with their dispatch table wrapped: number of walk functions invoked"""
+    import pysmt.printers as hr_printers
+    buf = io.StringIO()
+    pr = hr_printers.HRPrinter(buf, env) if kind == "hr_serialize" else smt_printers.SmtPrinter(buf)
+    calls = [0]
+    for k_, fn in list(pr.functions.items()):
+        def w(formula, *a, _fn=fn, **kw):
+            calls[0] += 1
+            return _fn(formula, *a, **kw)
+        pr.functions[k_] = w
+    pr.printer(f)
+    return calls[0]
+
+
 def check_tree_walkers(ctx, env, fam, fam_sig, timings):
     """walkers/tree.py (generator-based TreeWalker: HR serialisation, tree-style SMT-LIB printing): not memoising,
-    so only run where the tree is as small as the DAG (combs, wide nodes); S = no RecursionError at any depth."""
-    for name, th in (("hr_serialize", lambda: fam.phi.serialize()),
-                     ("print_tree", lambda: fam.phi.to_smtlib(daggify=False))):
+    so only run where the tree is as small as the DAG (combs, wide nodes); S = no RecursionError at any depth;
+    K = the number of walk functions invoked is the tree size (theorem `tree_walk_visits`)."""
+    tsz = harness_tree_size(fam.phi)
+    for name, th in (("hr_serialize", lambda: tapped_tree_print("hr_serialize", fam.phi, env)),
+                     ("print_tree", lambda: tapped_tree_print("print_tree", fam.phi, env))):
         t0 = time.time()
         try:
-            th()
+            n_calls = th()
+            # walk functions of quantifiers / some operators call `self.walk` themselves: every node is still one call
+            if n_calls != tsz:
+                ctx.report_k("%s on %s: %d walk functions invoked, tree size %d" % (name, fam.name, n_calls, tsz),
+                             {"family": fam.params, "op": name})
         except RecursionError:
             ctx.report_s(dict(fam_sig, op=name, oracle="recursion"),
                          "RecursionError in %s on %s" % (name, fam.name), {"family": fam.params, "op": name})
@@ -1175,12 +1231,27 @@ def generic_case(ctx, rng, env, fam, n_ops=4):
             fn = order[rng.randrange(len(order))]
             fail_nodes = (fn,)
             opstr += "!%d" % index[fn]
+        w.fail_children = w.fail_key = w.fault_hit = None
+        if 0.45 <= mode < 0.6:
+            # a crash point outside the callbacks: `_get_children` / `_get_key` raises on a node below the root
+            below = abstract_graph(node, lambda k_: k_.args())[0]
+            fn = below[rng.randrange(len(below))]
+            if mode < 0.52:
+                w.fail_children = fn
+                opstr += "#c%d" % index[(tag, fn) if tagged else fn]
+            else:
+                w.fail_key = (tag, fn) if tagged else fn
+                opstr += "#k%d" % index[(tag, fn) if tagged else fn]
         tap = Tap(w, fail_at=fail_at, fail_nodes=fail_nodes)
         try:
             r = w.walk(node, tag=tag) if tagged else w.walk(node)
             out = "ok:%d" % r
         except Injected:
-            out = "err:%d" % index[tap.trace[-1]]
+            if w.fault_hit is not None:
+                hit = w.fault_hit
+                out = "err:%d" % index[hit if (tagged and isinstance(hit, tuple)) or not tagged else (tag, hit)]
+            else:
+                out = "err:%d" % index[tap.trace[-1]]
         except KeyError:
             out = "keyerr"
         except RecursionError as e:
